@@ -625,9 +625,16 @@ def run(tier, seed, reg=None):
                 if len(lst) < 5 and all(s != sig for s, _ in lst):
                     lst.append((sig, {"check": check, "input": common._j(inp), "observed": str(obs)[:500], "expected": str(exp)[:300]}))
     failures = []
-    per = 5 if len(fails) <= 5 else 2
-    for check in sorted(fails, key=lambda c: (c.endswith(".any_reserved_item") or c.endswith(".path_value_with_newline"), c)):
-        failures += [f for _, f in fails[check][:per]]
+    tagged = lambda c: c.endswith(".any_reserved_item") or c.endswith(".path_value_with_newline")  # noqa: E731  (FINDINGS_C04.md)
+    new_checks = sorted(c for c in fails if not tagged(c))
+    old_checks = sorted(c for c in fails if tagged(c))
+    for check in new_checks:
+        failures += [f for _, f in fails[check][:5]]
+    failures = failures[:max(0, 25 - len(old_checks))] if len(failures) + len(old_checks) > 25 else failures
+    for k in range(2):
+        for check in old_checks:
+            if len(failures) < 25 and k < len(fails[check]):
+                failures.append(fails[check][k][1])
     dom = DOMAIN
     if tier == "thorough":
         dom += ("; thorough adds the value sweep under the subdomain and host configurations, 12000 seeded random values per "
